@@ -312,15 +312,20 @@ Fixpoint hist_ok (ok : op -> tree -> bool) (incs : list acc) (sc : bool) (h : li
   end.
 
 (* ---------------------------------------------------------------- "safe" guards for part B
-   (what the code does NOT check today): a region transformation must not enclose a loop over
-   colours, and a loop must not be coloured below ANY directive. *)
-Definition safeB_f (o : op) (ancs : list anc) (l : list node) : option (list node) :=
+   (what the code does NOT check today): a directive must not be put around nodes that contain
+   a loop over colours at any depth, and a loop must not be coloured below ANY directive. *)
+Definition op_sel (o : op) (l : list node) : list node :=
   match o with
-  | OColour _ i => if existsb anc_is_dir ancs then None else Some l
-  | OOmpParallel _ i n | OAccParallel _ i n =>
-      if existsb (contains is_colours_loop) (firstn n (skipn i l)) then None else Some l
-  | _ => Some l
+  | OColour _ _ => []
+  | OOmpParDo _ i | OOmpDo _ i | OAccLoop _ i _ => firstn 1 (skipn i l)
+  | OOmpParallel _ i n | OAccParallel _ i n => firstn n (skipn i l)
   end.
+Definition safeB_f (o : op) (ancs : list anc) (l : list node) : option (list node) :=
+  if existsb (contains is_colours_loop) (op_sel o l) then None
+  else match o with
+       | OColour _ _ => if existsb anc_is_dir ancs then None else Some l
+       | _ => Some l
+       end.
 Definition op_path (o : op) : list nat :=
   match o with
   | OColour p _ | OOmpParDo p _ | OOmpDo p _ | OAccLoop p _ _ | OOmpParallel p _ _
@@ -332,6 +337,16 @@ Definition safeB (incs : list acc) (sc : bool) (o : op) (t : tree) : bool :=
   | None => true
   | Some _ => match upd (op_path o) (safeB_f o) [] t with Some _ => true | None => false end
   end.
+
+(* schedules as PSyclone generates them: no directive yet *)
+Fixpoint nodir (n : node) : bool :=
+  match n with
+  | NDir _ _ => false
+  | NLoop _ _ body => forallb nodir body
+  | _ => true
+  end.
+(* built-ins (non-coded kernels) have no incrementing argument *)
+Definition no_builtin_incr (t : tree) : bool := forallb (cov [AInc; AReadInc]) t.
 
 Definition covers_all (incs : list acc) : bool := mem_acc AInc incs && mem_acc AReadInc incs.
 
